@@ -29,6 +29,7 @@ type c09Replay struct {
 	Exts          []string `json:"exts"`
 	Route         string   `json:"route"` // output-dry | mkdir-md-dry | mkdir-root-dry
 	Extra         string   `json:"extra_options,omitempty"`
+	Gaps          bool     `json:"blank_lines_between_all_lines,omitempty"` // the Markdown routes get the document with a blank line after every line
 	AfterFault    bool     `json:"after_a_failed_write,omitempty"` // the same call was made just before with a writer that took half of the report
 	Color         bool     `json:"color,omitempty"`                // colours switched on (a terminal): the report is judged with the SGR sequences removed
 }
@@ -87,6 +88,13 @@ func c09Case(c *rep.Ctx, r c09Replay) {
 	f := enum.Build(r.Depth, r.Names)
 	m := model.Merge(f)
 	doc := enum.Spell(r.Depth, r.Names, enum.Canonical)
+	if r.Gaps {
+		g := make([]int, len(r.Depth)+1)
+		for i := range g {
+			g[i] = 1 + i%2
+		}
+		doc = enum.Spell(r.Depth, r.Names, enum.Spelling{Unit: "  ", Bullets: []byte("-"), Gaps: g})
+	}
 	j := fsx.NewJail("c09")
 	defer j.Remove()
 	target := j.Target
@@ -227,6 +235,9 @@ func init() {
 						c09Case(c, c09Replay{Kind: "c09", Depth: append([]int{}, d...), Names: names, Exts: ex, Route: rt, Color: true})
 						c09Case(c, c09Replay{Kind: "c09", Depth: append([]int{}, d...), Names: names, Exts: ex, Route: rt + "-alias"})
 						c09Case(c, c09Replay{Kind: "c09", Depth: append([]int{}, d...), Names: names, Exts: ex, Route: rt, AfterFault: true})
+						if rt != "mkdir-root-dry" {
+							c09Case(c, c09Replay{Kind: "c09", Depth: append([]int{}, d...), Names: names, Exts: ex, Route: rt, Gaps: true})
+						}
 					}
 					if len(d) <= 2 && rt != "output-dry" {
 						for _, x := range c09Extras {
